@@ -7,6 +7,7 @@ import ast
 from ..cfg import Oracle, build_cfg
 from ..index import AnalysisError, UNKNOWN, norm, unparse
 from ..report import Ctx
+from ..terms import show
 from ..util import Facts, arg, callee_attr, calls_in_node, cfg_nodes_with_call
 from ._chan import GB, callback_invocations, in_exception_handler_scope, receiver_context
 
@@ -108,23 +109,34 @@ def check(ctx: Ctx) -> None:
 
     fe = repo.func(f"{GB}.WorkerGateway.executetask")
     with ctx.obligation("C07.c", "exec-error-path") as ob:
+        # on value terms: whenever the remote body (exec of the source / the call of the function) raises, the text made by
+        # geterrortext from *that* exception is what channel.close() receives -- whatever locals carry it
+        from ..terms import evaluator as _evx
+        body_call = lambda c: isinstance(c.func, ast.Name) and c.func.id in ("exec", "function")  # noqa: E731
+        orc = Oracle(repo, fe, precise=True, call_raises=lambda c, f: [("BaseException", True)] if body_call(c) else None)
+        evx = _evx(repo, fe, orc)
+        n_fail = 0
+        ok = True
+        FIN = "_channelfactory.finished"
+        for (pth, st_) in evx.run(limit=20000):
+            rz = [e for e in st_.events if e.kind == "call" and e.raised and isinstance(e.node, ast.Call) and body_call(e.node)]
+            if not rz:
+                continue
+            if any(show(t).endswith(FIN) and v is True for (t, v) in st_.cond):
+                continue  # the connection is gone: nobody to tell
+            n_fail += 1
+            after = st_.events[st_.events.index(rz[-1]):]
+            texts = [e for e in after if e.kind == "call" and str(e.callee or e.attr or "").split(".")[-1] in ("_geterrortext", "geterrortext")
+                     and e.args and e.args[0][0] == "exc"]
+            closes = [e for e in after if e.kind == "call" and e.attr == "close" and e.recv is not None and e.args]
+            if not texts or not any(c_.args == (t_.result,) for c_ in closes for t_ in texts):
+                ok = False
+        ok = ok and n_fail >= 2
         hs = [h for n in repo.own_nodes(fe) if isinstance(n, ast.Try) for h in n.handlers if h.type is not None and unparse(h.type) == "BaseException"]
-        ob.require(len(hs) == 1, "executetask: `except BaseException` handler not found")
-        h = hs[0]
-        calls = [c for s in h.body for c in ast.walk(s) if isinstance(c, ast.Call)]
-        txt = [c for c in calls if callee_attr(c) in ("_geterrortext", "geterrortext") and c.args and unparse(c.args[0]) == h.name]
-        tv = unparse(repo.parent(txt[0]).targets[0]) if txt and isinstance(repo.parent(txt[0]), ast.Assign) else None
-        cl = [c for c in calls if callee_attr(c) == "close" and unparse(c.func.value) == "channel"]
-        ok = bool(txt) and len(cl) == 1 and len(cl[0].args) == 1 and unparse(cl[0].args[0]) == tv
-        ob.site(fe, h, "remote body exception -> geterrortext -> channel.close(text)", ok=ok)
+        h = hs[0] if hs else fe.node
+        ob.site(fe, h, "remote body exception -> geterrortext -> channel.close(text)", ok=ok, failing_paths=n_fail)
         if not ok:
             ob.violation(fe, h, "an exception of the remote body does not reach channel.close(<error text>): the initiator would see a clean close")
-        # the body runs inside that try
-        body_calls = [c for c in repo.calls_in(fe) if isinstance(c.func, ast.Name) and c.func.id in ("exec", "function")]
-        for c in body_calls:
-            tr = [a for a in repo.ancestors(c) if isinstance(a, ast.Try) and h in a.handlers]
-            if not tr:
-                ob.violation(fe, c, "the remote body is executed outside the try that reports its exceptions")
         # geterrortext builds type/message/traceback text
         fg = repo.func(f"{GB}.geterrortext")
         fmt = [c for c in repo.calls_in(fg) if isinstance(c.func, ast.Name) and c.func.id == "format_exception"]
